@@ -236,3 +236,18 @@ package checkers
 //@   call newErrorHandler requires @legacy-flag-means-all arg0 == ite(unbox(info.Params["failOn"].Value, "string") == "" && unbox(info.Params["failOnError"].Value, "bool"), "all", unbox(info.Params["failOn"].Value, "string"))
 //@   loop 1 body @disable-entry-recorded ite(hasPrefix(trimSpace(splitAt(unbox(info.Params["disable"].Value, "string"), ",", $i)), "#"), disabledTags[substr(trimSpace(splitAt(unbox(info.Params["disable"].Value, "string"), ",", $i)), 1, len(trimSpace(splitAt(unbox(info.Params["disable"].Value, "string"), ",", $i))))], disabledGroups[trimSpace(splitAt(unbox(info.Params["disable"].Value, "string"), ",", $i))])
 //@   loop 3 body @pattern-without-match-is-fatal len(filenames) != 0 || err != nil
+
+// ---- C17: every loaded rule group becomes exactly one checker carrying the group's own metadata
+
+//@ func InitEmbeddedRules
+//@   prop C17
+//@   nosafety the engine's output (loaded groups) is not restated
+//@   call (*CheckerCollection).AddChecker requires @group-metadata-copied-field-by-field arg1 != nil && arg1.Name == g.Name && arg1.Summary == g.DocSummary && arg1.Before == g.DocBefore && arg1.After == g.DocAfter && arg1.Note == g.DocNote && arg1.Tags == g.DocTags && arg1.EmbeddedRuleguard && fresh(arg1)
+//@   loop 1 body @one-registration-per-group emitted(registered) == old(emitted(registered)) + 1
+
+// the per-checker engine loads only the group the checker was made for
+//@ func InitEmbeddedRules$2$1
+//@   prop C17
+//@   pure
+//@   requires gr != nil
+//@   ensures @only-own-group result <==> gr.Name == g.Name
